@@ -36,6 +36,9 @@ class C04Spec(c01.C01Spec):
             cfg['compaction'] = True
         if rng.random() < 0.6:
             conf['appendEntriesBatchSizeBytes'] = rng.choice([1, 7, 30, 64, 64, 200] if rng.random() < 0.1 else [30, 64, 64, 200])
+        if rng.random() < 0.2 and not cfg['sched'].get('guide'):
+            # read-only nodes acknowledge entries too: the majority that decides is one of VOTERS
+            cfg['n_ro'] = rng.choice([1, 1, 2])
         wh, wr = rng.choice([0.02, 0.05, 0.1]), rng.choice([0.0, 0.03, 0.08])
         if not cfg['sched'].get('guide'):
             cfg['sched']['w_hold'], cfg['sched']['w_rst'] = wh, wr
